@@ -43,7 +43,8 @@ def one(patch):
         if a.returncode:
             return name + " PATCH DOES NOT APPLY " + a.stderr[:200]
         out = {"patch": name, "alarms": {}, "undecided": {}, "machinery": {}}
-        area = AREA.get(name.split("/")[0].split("-")[0]) if not os.environ.get("REFAC_ALL_PROPS") else None
+        mk = re.search(r"(R\d)", name)
+        area = AREA.get(mk.group(1)) if mk and not os.environ.get("REFAC_ALL_PROPS") else None
         for pr, (rc, keys, rules, und, mach) in sorted(run_all(wt, area).items()):
             if keys:
                 out["alarms"][pr] = keys[:6]
@@ -64,7 +65,7 @@ def one(patch):
 def main():
     dirs = []
     for a in sys.argv[1:]:
-        dirs += sorted(glob.glob(os.path.join(a, "r*", "patch.diff")))
+        dirs += sorted(glob.glob(os.path.join(a, "r*", "patch.diff"))) + sorted(glob.glob(os.path.join(a, "R*-r*", "patch.diff")))
     with ThreadPoolExecutor(4) as ex:
         for line in ex.map(one, dirs):
             print(line)
